@@ -29,7 +29,7 @@ try:
         env = dict(os.environ); env["VERIF_REPO"] = R
         try:
             p = subprocess.run(["./check", pid, "--tier", tier], cwd=V, capture_output=True, text=True, timeout=5400, env=env)
-            lines = [l for l in p.stdout.splitlines() if l.startswith(("VIOLATION", "OK", "KNOWN"))]
+            lines = [l for l in p.stdout.splitlines() if l.startswith(("VIOLATION", "OK"))] + [l[:60] for l in p.stdout.splitlines() if l.startswith("KNOWN")]
             verdict = "MISSED" if p.returncode == 0 else ("caught(no-input)" if all("no-failing-input-found" in l for l in lines if l.startswith("VIOLATION")) else "caught")
         except subprocess.TimeoutExpired:
             lines, verdict = ["timeout"], "timeout"
